@@ -366,7 +366,7 @@ def matrix_pivot(m, sign=False):
     :return: a tuple containing the matrix product of M x P, P and det(P)
     :rtype: tuple
     """
-    mp = deepcopy(m)
+    mp = [list(row) for row in m]  # rows are exchanged below; tuples of tuples are accepted as well
     n = len(mp)
     p = matrix_identity(n)  # permutation matrix
     me = [[float(v) for v in r] for r in m]  # eliminated copy, used only for choosing the pivot rows
